@@ -175,7 +175,7 @@ func genTrees(budget int) []gtree {
 func uniqueCandidates(kids []*S, prefix string) []string {
 	var out []string
 	for i, k := range kids {
-		if k.Kind == "leaf" && k.Default == "" {
+		if k.Kind == "leaf" && k.effDefault() == "" {
 			out = append(out, fmt.Sprintf("%s%d", prefix, i))
 		}
 	}
@@ -264,6 +264,9 @@ func finalise(forest []*S) []*S {
 // schemaText renders a generated schema for reports.
 func schemaText(kids []*S) string {
 	var parts []string
+	if usesTypedef(kids) {
+		parts = append(parts, "typedef td { type string; default \"tdflt\"; }")
+	}
 	for _, k := range kids {
 		parts = append(parts, k.yang())
 	}
